@@ -7,17 +7,21 @@
 From RU Require Import Base.Prelude Base.Utf8 Spec.Whatwg Spec.WhatwgFuel Proofs.C01_EqRun Proofs.C07_SpecRun.
 
 (* steps 2.1 - 2.6 of the scheme state when a state override is given and c is ':' *)
+Definition proto_refuses (u : spec_url) (buffer : list N) : bool :=
+  (is_special_scheme (su_scheme u) && negb (is_special_scheme buffer))
+  || (negb (is_special_scheme (su_scheme u)) && is_special_scheme buffer)
+  || ((includes_credentials u || opt_is_some (su_port u)) && list_eqb buffer str_file)
+  || (list_eqb (su_scheme u) str_file && host_is_empty (su_host u)).
+
+(* a port equal to the default port of the scheme is stored as null *)
+Definition renorm (u1 : spec_url) : spec_url :=
+  match su_port u1 with
+  | Some p => if port_is_default (su_scheme u1) p then set_port u1 None else u1
+  | None => u1
+  end.
+
 Definition proto_decide (u : spec_url) (buffer : list N) : spec_url :=
-  if is_special_scheme (su_scheme u) && negb (is_special_scheme buffer) then u
-  else if negb (is_special_scheme (su_scheme u)) && is_special_scheme buffer then u
-  else if (includes_credentials u || opt_is_some (su_port u)) && list_eqb buffer str_file then u
-  else if list_eqb (su_scheme u) str_file && host_is_empty (su_host u) then u
-  else
-    let u1 := set_scheme u buffer in
-    match su_port u1 with
-    | Some p => if port_is_default (su_scheme u1) p then set_port u1 None else u1
-    | None => u1
-    end.
+  if proto_refuses u buffer then u else renorm (set_scheme u buffer).
 
 Section ProtoRuns.
 Variable hp : bool -> list N -> option spec_host.
@@ -44,7 +48,7 @@ Proof.
       apply (IH (pre ++ [c]) fuel (buf ++ [to_lower c]) a b pw u (snoc_split input pre c r Hin)).
       cbn [length] in Hfuel. lia.
     + destruct (c =? 58) eqn:E58; [|reflexivity].
-      cbn [has_ov opt_is_some andb m_url m_buf at_pos]. unfold proto_decide.
+      cbn [has_ov opt_is_some andb m_url m_buf at_pos]. unfold proto_decide, proto_refuses, renorm.
       destruct (is_special_scheme (su_scheme u) && negb (is_special_scheme buf)); [reflexivity|].
       destruct (negb (is_special_scheme (su_scheme u)) && is_special_scheme buf); [reflexivity|].
       destruct ((includes_credentials u || opt_is_some (su_port u)) && list_eqb buf str_file); [reflexivity|].
@@ -132,38 +136,43 @@ Qed.
 Lemma file_is_special s : list_eqb s str_file = true -> is_special_scheme s = true.
 Proof. intros H. apply list_eqb_spec in H. subst s. reflexivity. Qed.
 
-Lemma proto_decide_sane su sch : sane su -> sane (proto_decide su sch).
+Lemma set_scheme_sane su sch : sane su -> proto_refuses su sch = false -> sane (set_scheme su sch).
 Proof.
-  intros [S1 S2 S3]. unfold proto_decide.
-  destruct (is_special_scheme (su_scheme su) && negb (is_special_scheme sch)) eqn:D1; [constructor; assumption|].
-  destruct (negb (is_special_scheme (su_scheme su)) && is_special_scheme sch) eqn:D2; [constructor; assumption|].
-  destruct ((includes_credentials su || opt_is_some (su_port su)) && list_eqb sch str_file) eqn:D3; [constructor; assumption|].
-  destruct (list_eqb (su_scheme su) str_file && host_is_empty (su_host su)) eqn:D4; [constructor; assumption|].
-  cbn zeta.
+  intros [S1 S2 S3] R. unfold proto_refuses in R.
+  apply orb_false_iff in R. destruct R as [R D4]. apply orb_false_iff in R. destruct R as [R D3].
+  apply orb_false_iff in R. destruct R as [D1 D2].
   assert (is_special_scheme sch = is_special_scheme (su_scheme su)) as Esp.
   { destruct (is_special_scheme (su_scheme su)), (is_special_scheme sch); try reflexivity; discriminate. }
-  (* the record with the new scheme and the old port *)
-  assert (sane (set_scheme su sch)) as Sn.
-  { constructor; cbn [set_scheme su_scheme su_host su_port su_path];
-      unfold cannot_have_username_password_port, is_special, includes_credentials, has_opaque_path in *;
-      cbn [set_scheme su_scheme su_host su_port su_path su_username su_password].
-    - intros Hc. destruct (list_eqb sch str_file) eqn:Ef.
-      + rewrite andb_true_r in D3. apply orb_false_iff in D3. destruct D3 as [A B]. split; [|exact A].
-        destruct (su_port su); [discriminate B | reflexivity].
-      + rewrite orb_false_r in Hc. apply S1. rewrite Hc. reflexivity.
-    - intros Hs. rewrite Esp in Hs. destruct (S2 Hs) as [A B]. split; [exact A|]. intros Hf.
-      destruct (list_eqb (su_scheme su) str_file) eqn:Eof; [|exact (B eq_refl)].
-      cbn [andb] in D4. exact D4.
-    - exact S3. }
-  destruct Sn as [T1 T2 T3].
-  cbn [set_scheme su_port su_scheme].
-  destruct (su_port su) as [p|] eqn:Ep; [|constructor; assumption].
-  destruct (port_is_default sch p); [|constructor; assumption].
+  constructor; cbn [set_scheme su_scheme su_host su_port su_path];
+    unfold cannot_have_username_password_port, is_special, includes_credentials, has_opaque_path in *;
+    cbn [set_scheme su_scheme su_host su_port su_path su_username su_password].
+  - intros Hc. destruct (list_eqb sch str_file) eqn:Ef.
+    + rewrite andb_true_r in D3. apply orb_false_iff in D3. destruct D3 as [A B]. split; [|exact A].
+      destruct (su_port su); [discriminate B | reflexivity].
+    + rewrite orb_false_r in Hc. apply S1. rewrite Hc. reflexivity.
+  - intros Hs. rewrite Esp in Hs. destruct (S2 Hs) as [A B]. split; [exact A|]. intros Hf.
+    destruct (list_eqb (su_scheme su) str_file) eqn:Eof; [|exact (B eq_refl)].
+    cbn [andb] in D4. exact D4.
+  - exact S3.
+Qed.
+
+Lemma renorm_sane u1 : sane u1 -> sane (renorm u1).
+Proof.
+  intros S. unfold renorm.
+  destruct (su_port u1) as [p|] eqn:Ep; [|exact S].
+  destruct (port_is_default (su_scheme u1) p); [|exact S].
+  destruct S as [T1 T2 T3].
   constructor; unfold cannot_have_username_password_port, is_special, includes_credentials, has_opaque_path in *;
-    cbn [set_port set_scheme su_scheme su_host su_port su_path su_username su_password] in *.
+    cbn [set_port su_scheme su_host su_port su_path su_username su_password] in *.
   - intros Hc. split; [reflexivity|]. exact (proj2 (T1 Hc)).
   - exact T2.
   - exact T3.
+Qed.
+
+Lemma proto_decide_sane su sch : sane su -> sane (proto_decide su sch).
+Proof.
+  intros S. unfold proto_decide. destruct (proto_refuses su sch) eqn:R; [exact S|].
+  apply renorm_sane. apply set_scheme_sane; assumption.
 Qed.
 
 Theorem spec_protocol_sane shp su v su' : sane su -> spec_set shp SetProtocol su v = SetTo su' -> sane su'.
